@@ -24,10 +24,13 @@ const char *gh_name;
 #define TOPLEN(o) ((size_t) (OFF ((o)->os_top_object_free) - OFF ((o)->os_top_object_start)))
 
 /* ---- callee contracts ---- */
+hash_table_entry_t *gh_slot_r, *gh_slot_c;      /* the slots the name table / the code table reserved for the new symbol */
 hash_table_entry_t *find_slot_c (hash_table_t htab, hash_table_entry_t element, int reserve)
-__CPROVER_requires (reserve == 1)
-__CPROVER_assigns ()
+__CPROVER_requires (reserve == 1 && (htab == symbs_ptr->repr_to_symb_tab || htab == symbs_ptr->code_to_symb_tab))
+__CPROVER_assigns (htab == symbs_ptr->repr_to_symb_tab: gh_slot_r; htab != symbs_ptr->repr_to_symb_tab: gh_slot_c)
 __CPROVER_ensures (__CPROVER_is_fresh (__CPROVER_return_value, sizeof (hash_table_entry_t)))
+__CPROVER_ensures (htab != symbs_ptr->repr_to_symb_tab || __CPROVER_pointer_in_range_dfcc (__CPROVER_return_value, gh_slot_r, __CPROVER_return_value))
+__CPROVER_ensures (htab == symbs_ptr->repr_to_symb_tab || __CPROVER_pointer_in_range_dfcc (__CPROVER_return_value, gh_slot_c, __CPROVER_return_value))
 __CPROVER_ensures (*__CPROVER_return_value == NULL)            /* documented precondition of symb_add_*: the symbol is not in the tables */
 ;
 /* what OS.string proves about _OS_add_string_function, restated for an EMPTY top object (the state after OS_TOP_FINISH) */
@@ -70,7 +73,7 @@ __CPROVER_ensures (__CPROVER_pointer_in_range_dfcc (vlo->vlo_start + gh_newcap, 
 struct symb *add_term_c (const char *name, int code)
 __CPROVER_requires (symbs_ptr != NULL && name == gh_name && gh_slen < CAP && gh_j <= gh_slen)          /* the harness supplies *symbs_ptr, its containers and the name */
 __CPROVER_requires (symbs_ptr->n_terms >= 0 && symbs_ptr->n_nonterms >= 0 && symbs_ptr->n_terms < 100000 && symbs_ptr->n_nonterms < 100000)
-__CPROVER_assigns (symbs_ptr->n_terms, symbs_ptr->symbs_os, symbs_ptr->symbs_vlo, symbs_ptr->terms_vlo, gh_newlen, gh_newcap,
+__CPROVER_assigns (symbs_ptr->n_terms, symbs_ptr->symbs_os, symbs_ptr->symbs_vlo, symbs_ptr->terms_vlo, gh_newlen, gh_newcap, gh_slot_r, gh_slot_c,
                    __CPROVER_object_whole (symbs_ptr->symbs_os.os_top_object_free), __CPROVER_object_whole (symbs_ptr->symbs_vlo.vlo_free), __CPROVER_object_whole (symbs_ptr->terms_vlo.vlo_free))
 __CPROVER_ensures (__CPROVER_return_value->term_p && __CPROVER_return_value->u.term.code == code
                    && __CPROVER_return_value->u.term.term_num == __CPROVER_old (symbs_ptr->n_terms)
@@ -81,13 +84,15 @@ __CPROVER_ensures (__CPROVER_return_value->repr != name && !__CPROVER_same_objec
 __CPROVER_ensures (__CPROVER_return_value->repr[gh_j] == name[gh_j])
 /* the new record is the last element of both reference arrays */
 __CPROVER_ensures (((struct symb **) symbs_ptr->symbs_vlo.vlo_free)[-1] == __CPROVER_return_value && ((struct symb **) symbs_ptr->terms_vlo.vlo_free)[-1] == __CPROVER_return_value)
+/* and it is what the slots reserved in the name table and in the code table now hold (this is what later lookups find) */
+__CPROVER_ensures (*gh_slot_r == (hash_table_entry_t) __CPROVER_return_value && *gh_slot_c == (hash_table_entry_t) __CPROVER_return_value)
 ;
 
 /* ---- symb_add_nonterm ---- */
 struct symb *add_nonterm_c (const char *name)
 __CPROVER_requires (symbs_ptr != NULL && name == gh_name && gh_slen < CAP && gh_j <= gh_slen)
 __CPROVER_requires (symbs_ptr->n_terms >= 0 && symbs_ptr->n_nonterms >= 0 && symbs_ptr->n_terms < 100000 && symbs_ptr->n_nonterms < 100000)
-__CPROVER_assigns (symbs_ptr->n_nonterms, symbs_ptr->symbs_os, symbs_ptr->symbs_vlo, symbs_ptr->nonterms_vlo, gh_newlen, gh_newcap,
+__CPROVER_assigns (symbs_ptr->n_nonterms, symbs_ptr->symbs_os, symbs_ptr->symbs_vlo, symbs_ptr->nonterms_vlo, gh_newlen, gh_newcap, gh_slot_r,
                    __CPROVER_object_whole (symbs_ptr->symbs_os.os_top_object_free), __CPROVER_object_whole (symbs_ptr->symbs_vlo.vlo_free), __CPROVER_object_whole (symbs_ptr->nonterms_vlo.vlo_free))
 __CPROVER_ensures (!__CPROVER_return_value->term_p && __CPROVER_return_value->u.nonterm.rules == NULL && __CPROVER_return_value->u.nonterm.loop_p == 0
                    && __CPROVER_return_value->u.nonterm.nonterm_num == __CPROVER_old (symbs_ptr->n_nonterms)
@@ -97,6 +102,7 @@ __CPROVER_ensures (!__CPROVER_return_value->term_p && __CPROVER_return_value->u.
 __CPROVER_ensures (__CPROVER_return_value->repr != name && !__CPROVER_same_object (__CPROVER_return_value->repr, name))
 __CPROVER_ensures (__CPROVER_return_value->repr[gh_j] == name[gh_j])
 __CPROVER_ensures (((struct symb **) symbs_ptr->symbs_vlo.vlo_free)[-1] == __CPROVER_return_value && ((struct symb **) symbs_ptr->nonterms_vlo.vlo_free)[-1] == __CPROVER_return_value)
+__CPROVER_ensures (*gh_slot_r == (hash_table_entry_t) __CPROVER_return_value)              /* the slot reserved in the name table holds the record */
 ;
 
 static void mk_os (os_t *os)
@@ -114,6 +120,8 @@ static void world (void)
   nm = malloc (gh_slen + 1); __CPROVER_assume (nm != NULL); nm[gh_slen] = '\0'; gh_name = nm;
   symbs_ptr = malloc (sizeof (struct symbs)); __CPROVER_assume (symbs_ptr != NULL);
   mk_os (&symbs_ptr->symbs_os); mk_vlo (&symbs_ptr->symbs_vlo); mk_vlo (&symbs_ptr->terms_vlo); mk_vlo (&symbs_ptr->nonterms_vlo);
+  symbs_ptr->repr_to_symb_tab = malloc (sizeof (*symbs_ptr->repr_to_symb_tab)); symbs_ptr->code_to_symb_tab = malloc (sizeof (*symbs_ptr->code_to_symb_tab));
+  __CPROVER_assume (symbs_ptr->repr_to_symb_tab != NULL && symbs_ptr->code_to_symb_tab != NULL);       /* two different tables */
 }
 void h_add_term (void) { int code; world (); symb_add_term (gh_name, code); VACUITY_CANARY (); }
 void h_add_nonterm (void) { world (); symb_add_nonterm (gh_name); VACUITY_CANARY (); }
